@@ -1551,6 +1551,28 @@ class NumpyModel:
         vecs = mkarr([[alg.Fn("eigh.vec", tri, i, k) for k in range(n)] for i in range(n)])
         return (vals, vecs)
 
+    def np_svdvals(self, m, **kw):
+        """singular values in descending order: square roots of the eigenvalues of the smaller Gram matrix"""
+        m = self.np_asarray(m)
+        if m.ndim != 2:
+            raise Unsupported("svdvals of a stack")
+        n, k = m.shape
+        Gm = (m @ m.T) if n <= k else (m.T @ m)
+        q = Gm.shape[0]
+        if q not in (1, 2, 3, 4, 6):
+            raise Unsupported("svdvals of this size")
+        tri = tuple(Gm[i, j] for i in range(q) for j in range(i + 1))
+        return mkarr([alg.Sqrt(alg.Fn("eigvalsh", tri, q - 1 - i)) for i in range(q)])
+
+    def np_resize(self, a, new_shape):
+        a = self.np_asarray(a)
+        shp = _shape(new_shape)
+        flat = list(a.flat)
+        total = int(np.prod(shp)) if shp else 1
+        if not flat:
+            return full(shp, 0)
+        return mkarr([flat[i % len(flat)] for i in range(total)]).reshape(shp)      # numpy.resize repeats the data cyclically
+
     def np_svd(self, m, **kw):
         m = self.np_asarray(m)
         cs = cells(m)
